@@ -220,9 +220,9 @@ class BigMapType(MapType, prim='big_map', args_len=2):
         prev_val = self.get(key, dup=False)
         if prev_val is not None:
             if val is not None:
-                items = [(k, v if k != key else val) for k, v in self]
+                items = [(k, v if k != key else val) for k, v in self.items]
             else:  # remove
-                items = [(k, v) for k, v in self if k != key]
+                items = [(k, v) for k, v in self.items if k != key]
                 removed_keys.add(key)
         else:
             if val is not None:
